@@ -107,7 +107,7 @@ def generic_cases(chk):
     (kind_name, scenario_repr, trace_sync, trace_async)` with traces as lists of plain values."""
     cases, meta = [], []
     kinds = {}
-    for modname in ('props.c08', 'props.c15', 'props.c17', 'props.c19', 'props.c07', 'props.c10'):
+    for modname in ('props.c08', 'props.c15', 'props.c17', 'props.c19', 'props.c07', 'props.c10', 'props.c12'):
         try:
             mod = importlib.import_module(modname)
         except Exception:
@@ -134,10 +134,64 @@ def generic_cases(chk):
     return cases, meta
 
 
+def model_pair_cases(chk):
+    """Pairs for which the owning package has a shared Coq model and a typed pair case: `parity_model_cases(rng, n)`
+    returns {'kind', 'imports', 'case_type', 'fn', 'terms', 'meta'}; fn gives bit 1 = a member disagrees with the
+    model, bit 2 = the two members differ.  Returns [(kind, scenario, code)] for the nonzero codes."""
+    out = []
+    for modname in ('props.c07',):
+        try:
+            mod = importlib.import_module(modname)
+        except Exception:
+            continue
+        fn = getattr(mod, 'parity_model_cases', None)
+        if fn is None:
+            continue
+        try:
+            spec = fn(chk.rng.sub(modname + '.model'), 400 if chk.thorough else 40)
+        except Exception as e:
+            chk.broken_obligation('parity_model_cases of %s failed: %r' % (modname, e))
+            continue
+        kind = spec['kind']
+        codes, errors = coqio.eval_cases('c14_' + kind.replace('-', '_'), spec['imports'], '', spec['case_type'],
+                                         spec['terms'], spec['fn'], shard=40)
+        chk.traces_validated += len(spec['terms'])
+        for e in errors:
+            chk.broken_obligation('case evaluation failed (%s): %s' % (kind, e))
+        for i, m in enumerate(spec['meta']):
+            chk.count(1, (kind, m['key']) if m.get('key') else None,
+                      {'pair': kind, 'scenario': m['scenario'][:160]} if i % 50 == 0 else None)
+            chk.dist('pair ' + kind)
+        out.extend((kind, spec['meta'][i]['scenario'], code) for i, code in sorted(codes.items()))
+    return out
+
+
+def shrunk(kind, scen):
+    """Ask the owning package for a smaller scenario with the same symptom; Coq confirms that its traces differ."""
+    for modname in ('props.c07',):
+        try:
+            fn = getattr(importlib.import_module(modname), 'parity_shrink', None)
+            r = fn(kind, scen) if fn else None
+            if r is None:
+                continue
+            scen2, ts, ta = r
+            term = '(PGen 0 %s %s)' % (clist([pv(x) for x in ts]), clist([pv(x) for x in ta]))
+            codes, errors = coqio.eval_cases('c14_shr', IMPORTS, '', 'c14case', [term], 'c14_eval', shard=1)
+            if not errors and codes.get(0, 0) & 2:
+                return scen2
+        except Exception:
+            pass
+    return scen
+
+
 def run(chk):
     chk.rule = ('scripted scenarios (client packets valid and malformed, server API calls, transport losses) executed on the '
                 'threaded and on the asyncio member of each pair; traces compared directly in Coq after canonicalisation '
-                '(deterministic session ids); non-trivial = scenario whose trace has >= 3 effects; distinct by normalised trace')
+                '(deterministic session ids); non-trivial = scenario whose trace has >= 3 effects; distinct by normalised trace; '
+                'pub/sub pair additionally on cluster histories (2-3 hosts) whose connect / event / disconnect handlers (functions '
+                'and class-based namespaces) call enter_room / leave_room / rooms / emit / close_room / disconnect, clients ending '
+                'by DISCONNECT packet, transport loss and disconnect(): verbatim traces (published messages, packets per client, '
+                'handler calls, API results) compared in Coq, and typed traces compared with Cluster/Handlers.v and with each other')
     chk.trusted_base = ['Coq 8.16.1 kernel + vm_compute', 'the drivers of the owning properties (see their evidence)',
                         'handlers executed inline (async_handlers disabled); background handlers joined before comparison']
     chk.assumptions = ['pairs covered directly: Server/AsyncServer (with Manager/AsyncManager underneath); further pairs are '
@@ -151,14 +205,17 @@ def run(chk):
     chk.traces_validated = len(cases)
     for e in errors:
         chk.broken_obligation('case evaluation failed: ' + e)
+    results = [(meta[idx][0], meta[idx][1], code) for idx, code in sorted(codes.items())]
+    results += model_pair_cases(chk)
     seen = set()
-    for idx, code in sorted(codes.items()):
-        kind, scen = meta[idx]
+    for kind, scen, code in results:
         if code & 2:
             sig = 'parity-%s' % kind
             if sig in seen:
                 continue
             seen.add(sig)
+            if isinstance(scen, str):
+                scen = shrunk(kind, scen)
             chk.violation(sig, 'the threaded and the asyncio member of the pair behave differently on this scenario',
                           {'pair': kind, 'py': repr(scen)})
         elif code & 1 and ('corr', kind) not in seen:
@@ -181,5 +238,8 @@ def replay(chk, data):
             bad += bool(mark)
             print(o, '\n   sync :', es, '\n   async:', ea, mark)
         return 1 if bad else 0
+    if str(r.get('pair', '')).startswith('pubsub-handlers'):
+        scen = ast.literal_eval(r['py'])
+        return importlib.import_module('props.c07').parity_replay(r['pair'], scen)
     print(r)
     return 1
